@@ -364,6 +364,11 @@ func (h *httpServerHandler) handlePostRequest(ctx context.Context, w http.Respon
 		}
 		if err := sseResponder.respond(ctx, w, r, jsonrpcResponse, session); err != nil {
 			h.logger.Errorf("Failed to send SSE success response: %v", err)
+			// Typically the result could not be encoded: the request still gets an answer.
+			errorResp := newJSONRPCErrorResponse(req.ID, ErrCodeInternal, err.Error(), nil)
+			if err := sseResponder.respond(ctx, w, r, errorResp, session); err != nil {
+				h.logger.Errorf("Failed to send SSE encode-failure response: %v", err)
+			}
 		}
 		return
 	}
@@ -398,6 +403,11 @@ func (h *httpServerHandler) handlePostRequest(ctx context.Context, w http.Respon
 	}
 	if err := responder.respond(respCtx, w, r, jsonrpcResponse, session); err != nil {
 		h.logger.Errorf("Failed to send success response: %v", err)
+		// Typically the result could not be encoded: the request still gets an answer.
+		errorResp := newJSONRPCErrorResponse(req.ID, ErrCodeInternal, err.Error(), nil)
+		if err := responder.respond(respCtx, w, r, errorResp, session); err != nil {
+			h.logger.Errorf("Failed to send encode-failure response: %v", err)
+		}
 	}
 }
 
